@@ -1,6 +1,7 @@
 package main
 
 import (
+	"bytes"
 	"fmt"
 	"os"
 	"path/filepath"
@@ -93,6 +94,8 @@ func parseNodeLine(l string) (v storage.VerifNode, ok bool) {
 	return v, true
 }
 
+var prevNode *storage.VerifNode
+
 func pageCase(cfg *config, id int, path string, v storage.VerifNode, nontrivial bool) {
 	tr := cfg.tr
 	tr.Case(id)
@@ -117,6 +120,26 @@ func pageCase(cfg *config, id int, path string, v storage.VerifNode, nontrivial 
 			tr.Out("dec ok %s", nodeOut(out))
 		}
 		cfg.st.Inc("roundtrip")
+	}
+	// two pages in flight: the bytes an encode returned still are that page after the next page has been
+	// encoded (an encoder that hands out shared memory shows here; inside one store the write follows the
+	// encode at once, two stores flushing side by side do not have that luck)
+	if prevNode != nil && len(v.Cells) > 0 {
+		rawA, errA, pmA := storage.VerifEncodeNode(*prevNode)
+		if errA == nil && pmA == "" {
+			keep := append([]byte{}, rawA...)
+			storage.VerifEncodeNode(v)
+			tr.Op("twoenc")
+			if bytes.Equal(rawA, keep) {
+				tr.Tilde("stable")
+			} else {
+				tr.Tilde("changed")
+			}
+		}
+	}
+	if len(v.Cells) > 0 {
+		vv := v
+		prevNode = &vv
 	}
 	kind := "int"
 	if v.Leaf {
